@@ -275,6 +275,18 @@ def effects(net, op, before, after, extra_val, ex):
     out.append(('all other vehicles\' tours stay untouched', all(A.get(v) == B[v] for v in B if v not in touched) and all(v in B or v in touched for v in A)))
     changed_nodes = set(n for v in touched for n in Ba.get(v, []) + Aa.get(v, []))
     out.append(('formations elsewhere stay untouched', all(after['formations'].get(n) == f for n, f in before['formations'].items() if n not in changed_nodes)))
+    # order inside the touched formations
+    okord = True
+    for n, b in before['formations'].items():
+        a = after['formations'].get(n)
+        if a is None or a == b: continue
+        rem = [x for x in b if x not in a]; add = [x for x in a if x not in b]
+        if [x for x in b if x in a] != [x for x in a if x in b]: okord = False          # survivors keep their relative order
+        if len(rem) == 1 and len(add) == 1 and k in ('fit_reassign', 'override_reassign') and rem[0] in before['tours'] and add[0] in before['tours']:
+            if a != [add[0] if x == rem[0] else x for x in b]: okord = False             # replacement takes the position
+        elif len(add) == 1 and not rem:
+            if a != b + add: okord = False                                                # additions go to the tail
+    out.append(('in a formation a replacing vehicle takes the replaced one\'s position, additions go to the tail, removals keep the order', okord))
     return out
 
 def repeatable(net, after):
@@ -502,6 +514,9 @@ DEEP = [
     (0, [('spawn', 0, [4]), ('spawn', 0, [7]), ('set_transitions', 0, 'veh_0', 1), ('reassign_end_depots_consistent_with_transitions',)]),
     (0, [('spawn', 0, [4]), ('spawn', 0, [5]), ('set_transitions', 0, 'veh_1', 0)]),
     (0, [('spawn', 0, [4, 5]), ('remove_segment', 'veh_0', 5, 5), ('spawn', 0, [6]), ('override_reassign', 6, 6, 'veh_2', 'veh_0')]),
+    # a trip shared by two vehicles; the FIRST vehicle of its formation hands it to a third, real vehicle (formation order: replace, not remove + add)
+    (0, [('spawn', 0, [4]), ('spawn', 0, [4]), ('spawn', 0, [5]), ('override_reassign', 4, 4, 'veh_0', 'veh_2')]),
+    (0, [('spawn', 0, [4]), ('spawn', 0, [4]), ('spawn', 0, [5]), ('fit_reassign', 4, 4, 'veh_0', 'veh_2')]),
 ]
 # two vehicle types (variant 1: depots 0..5, trips 6,7 of type 0, trip 8 of type 1, slot 9): type compatibility across reassignments
 DEEP_TYPES = [      # variant 2: depots 0..3, trip 4 of type 0, trip 5 of type 1, slot 6
